@@ -2,6 +2,7 @@ import LLRP.Model.WriteMonitor
 import LLRP.Proofs.WriteSide
 import LLRP.Gen.Writers
 import LLRP.Gen.Consts
+import LLRP.Proofs.HeaderGen
 /-!
 # C05 — Outbound stream is a sequence of whole, correctly sized frames
 
@@ -27,7 +28,43 @@ theorem single_writer :
     (Gen.writers_callers.filter (·.call = "handleOutgoing")).length = 1 ∧
     (∀ w ∈ Gen.writers_callers, w.call = "writeHeader" ∨ w.call = "handleOutgoing") := by decide
 
+/-- **The header bytes are the source's.** What `Client.writeHeader` — as go2lean translates it from reader.go on this run —
+hands to the connection for a frame's header is exactly `writeHeader f.header`, the ten bytes `Frame.bytes` starts with;
+the translation accepts the function only if that single `conn.Write` is its one effect (no second write, no retry, no
+other call after it), so a header can not reach the wire twice or in part through this function. -/
+theorem src_frame_header (f : Frame) (hr : f.header.InRange) :
+    Gen.llrp_Client_writeHeader f.header.payloadLen f.header.id f.header.typ f.header.version =
+      some (ints (writeHeader f.header)) :=
+  gen_writeHeader_eq f.header hr
+
 def AllWF (items : List WItem) : Prop := ∀ it ∈ items, it.WF
+
+theorem wr_bytes_prefix (s : WState) (it : WItem) : s.bytes <+: (wr s it).bytes := by
+  unfold wr
+  split
+  · exact List.prefix_refl _
+  · cases it with
+    | setVer v => exact List.prefix_refl _
+    | ack id => simp [emit]
+    | req caller typ payload pid pv wants =>
+      simp only [emit, register, bumpId]
+      split <;> (split <;> (split <;> simp))
+    | bad caller typ declLen pid wants =>
+      simp only [register, bumpId]
+      split <;> (split <;> simp)
+
+theorem run_bytes_prefix (items : List WItem) (s : WState) : s.bytes <+: (run s items).bytes := by
+  induction items generalizing s with
+  | nil => exact List.prefix_refl _
+  | cons it rest ih => exact List.IsPrefix.trans (wr_bytes_prefix s it) (ih (wr s it))
+
+/-- **A failing connection leaves a prefix of whole frames.** The write loop only ever appends: whatever it had written
+when the connection failed (after `items`) is a prefix of what the complete run (`items ++ more`) writes, and that is a
+concatenation of whole frames (`out_is_frames`). The harness judges a write that is cut short by a stalling or vanishing
+peer with exactly this relation (`wr-prefix`). -/
+theorem failed_stream_is_prefix (v : Nat) (items more : List WItem) :
+    (run (WState.init v) items).bytes <+: (run (WState.init v) (items ++ more)).bytes := by
+  rw [run_append]; exact run_bytes_prefix more _
 
 /-- the bytes written are exactly the concatenation header ++ payload of the frames written; every frame fits its
 header, is 10 + payload-length bytes long, and its header decodes to the frame's fields with length field
